@@ -300,7 +300,14 @@ def free_check(prop, work, seed, runs, faults, cancel="any", goroutines=4, calls
             again += batch(seed + 1000 * i, max(runs, 6), "r%d" % i)[1]
         kinds = {kind(w) for _, _, w, _ in again}
         for r in rej:
-            if kind(r[2]) in kinds:
+            if '"foreign": true' in r[2] or '"ev": "FRoute"' in r[2]:
+                # known imprecision of the projection (DESIGN.md 10, item 15): items of OTHER nodes in the shared reply
+                # channel of a multi-node stream call are not ordered by this node's trace; such a rejection says
+                # nothing about the tree
+                unconfirmed += 1
+                log("UNCONFIRMED (not a verdict): transport-level rejection in a free workload at a foreign item of a "
+                    "multi-node stream call (run %s node %s line %d)" % (r[0].get("t"), r[0].get("node"), r[1]))
+            elif kind(r[2]) in kinds and len([a for a in again if kind(a[2]) == kind(r[2])]) >= 2:
                 confirmed.append(r)
             else:
                 unconfirmed += 1
